@@ -120,7 +120,11 @@ func populateRawPublicKey(pk *PublicKey) (map[string]interface{}, error) {
 	rawPK := make(map[string]interface{})
 	rawPK[jsonldID] = pk.ID
 	rawPK[jsonldType] = pk.Type
-	rawPK[jsonldPurposes] = pk.Purposes
+	// a key without purposes is a general purpose key: the 'purposes' property must be
+	// omitted then, since an empty (or null) list is refused by the patch validator
+	if len(pk.Purposes) > 0 {
+		rawPK[jsonldPurposes] = pk.Purposes
+	}
 
 	jwkBytes, err := pk.JWK.MarshalJSON()
 
